@@ -44,17 +44,14 @@ func isUniversalMatch(re *syntax.Regexp) bool {
 	return false
 }
 
-// isAnyCharStar reports whether re is `.*` / `(?s:.*)` (greedy or not) or empty: a
-// prefix that matches the empty string.
-func isAnyCharStar(re *syntax.Regexp) bool {
-	if re == nil {
+// prefixAcceptsEmpty reports whether the prefix part matches the empty string at any
+// position (no assertions involved), so an inner literal with nothing before it needs
+// no reverse scan.
+func prefixAcceptsEmpty(re *syntax.Regexp) bool {
+	if re == nil || re.Op == syntax.OpNoMatch || hasAnchorAssertions(re) {
 		return false
 	}
-	if re.Op == syntax.OpEmptyMatch {
-		return true
-	}
-	return re.Op == syntax.OpStar && len(re.Sub) == 1 &&
-		(re.Sub[0].Op == syntax.OpAnyChar || re.Sub[0].Op == syntax.OpAnyCharNotNL)
+	return canMatchEmpty(re)
 }
 
 // isGreedyDotAllStar reports whether re is exactly a greedy `(?s:.*)`.
@@ -330,7 +327,7 @@ func NewReverseInnerSearcher(
 		universalPrefix: universalPrefix,
 		universalSuffix: universalSuffix,
 		startAnchored:   startAnchored,
-		emptyPrefix:     isAnyCharStar(innerInfo.PrefixAST),
+		emptyPrefix:     prefixAcceptsEmpty(innerInfo.PrefixAST),
 	}
 	s.fwdCachePool = sync.Pool{
 		New: func() any { return s.forwardDFA.NewCache() },
@@ -435,7 +432,16 @@ func (s *ReverseInnerSearcher) Find(haystack []byte) *Match {
 		// Step 1: Reverse search on PREFIX portion with anti-quadratic guard
 		// Check if we can reach this inner literal from an earlier position.
 		// Use minMatchStart to avoid re-scanning regions already proven to have no match.
-		matchStart := s.reverseDFA.SearchReverseLimited(revCache, haystack, 0, pos, minMatchStart)
+		matchStart := -1
+		if pos == 0 {
+			// Nothing before the literal: the reverse DFA has no byte to read; the
+			// prefix matches iff it accepts the empty string (`.*abc.*` on "abc\nabc").
+			if s.emptyPrefix {
+				matchStart = 0
+			}
+		} else {
+			matchStart = s.reverseDFA.SearchReverseLimited(revCache, haystack, 0, pos, minMatchStart)
+		}
 		if matchStart == lazy.SearchReverseLimitedQuadratic {
 			// Reverse scan hit the anti-quadratic guard - fall back to PikeVM
 			start, end, found := s.pikevm.Search(haystack)
@@ -633,7 +639,15 @@ func (s *ReverseInnerSearcher) findIndicesAtImpl(haystack []byte, at int, fwdCac
 
 		// Step 1: Reverse search on PREFIX portion with anti-quadratic guard
 		// Use minMatchStart to avoid re-scanning regions already checked
-		matchStart := s.reverseDFA.SearchReverseLimited(revCache, haystack, at, pos, minMatchStart)
+		matchStart := -1
+		if pos == at {
+			// Empty region before the literal: see Find
+			if s.emptyPrefix {
+				matchStart = at
+			}
+		} else {
+			matchStart = s.reverseDFA.SearchReverseLimited(revCache, haystack, at, pos, minMatchStart)
+		}
 		if matchStart == lazy.SearchReverseLimitedQuadratic {
 			// Quadratic behavior detected - fall back to PikeVM
 			return s.pikevm.SearchAt(haystack, at)
